@@ -827,6 +827,46 @@ class Leg:
         raise NotImplementedError
 
 
+_REAL_TRANSPILERS: Dict[str, Any] = {}
+
+
+def real_joined_str(target: str, pair: Tuple[str, str]) -> Optional[str]:
+    """``f"<a>{X}<b>"`` through the real transpiler of the target (None: refused)."""
+    import ast as _ast
+    import importlib
+
+    from aas_core_codegen.common import Identifier
+    from aas_core_codegen.intermediate import type_inference
+    from aas_core_codegen.parse import tree as parse_tree
+
+    if target not in _REAL_TRANSPILERS:
+        module = importlib.import_module(f"aas_core_codegen.{target}.transpilation")
+
+        class OnlyNames(module.Transpiler):  # type: ignore
+            def transform_name(self, node):  # type: ignore
+                return str(node.identifier), None
+
+        environment = type_inference.MutableEnvironment(parent=None)
+        environment.set(
+            Identifier("X"),
+            type_inference.PrimitiveTypeAnnotation(type_inference.PrimitiveType.STR),
+        )
+        _REAL_TRANSPILERS[target] = (OnlyNames, environment)
+    cls, environment = _REAL_TRANSPILERS[target]
+    origin = _ast.parse("X", mode="eval").body
+    name = parse_tree.Name(identifier=Identifier("X"), original_node=origin)
+    node = parse_tree.JoinedStr(
+        values=[pair[0], parse_tree.FormattedValue(value=name, original_node=origin), pair[1]],
+        original_node=origin,
+    )
+    str_type = type_inference.PrimitiveTypeAnnotation(type_inference.PrimitiveType.STR)
+    transpiler = cls(type_map={name: str_type, node: str_type}, environment=environment)
+    code, error = transpiler.transform_joined_str(node)
+    if error is not None:
+        return None
+    return str(code)
+
+
 def _safe_py_eval(src: str, fstring: bool) -> Any:
     """Evaluate a Python literal; for f-strings allow only ``{X}`` as expression."""
     if not fstring:
@@ -908,6 +948,15 @@ class PythonLeg(Leg):
 
         V.append(Variant("string_literal", "f-generator", "[f-string]", "pyf", "pair", fgen,
                          lambda v: v[0] + X_MARK + v[1]))
+
+        def real_fgen(v: Tuple[str, str]) -> Optional[str]:
+            # the transpiler itself: python/transpilation.py:Transpiler.transform_joined_str
+            for part in v:  # documented preconditions of the helper it calls
+                guarded(m.string_literal, part, without_enclosing=True, duplicate_curly_brackets=True)
+            return real_joined_str("python", v)
+
+        V.append(Variant("transform_joined_str", "f-transpiler", "[f-string]", "pyf", "pair",
+                         real_fgen, lambda v: v[0] + X_MARK + v[1]))
 
         V.append(Variant("bytes_literal", "", "", "py", "bytes",
                          lambda v: "(\n" + guarded(m.bytes_literal, v)[0] + "\n)", lambda v: bytes(v)))
@@ -1037,6 +1086,15 @@ class TypeScriptLeg(Leg):
 
         V.append(Variant("string_literal", "template-generator", "[template]", "js", "pair",
                          tgen, lambda v: utf16_units(v[0] + X_MARK + v[1])))
+
+        def real_tgen(v: Tuple[str, str]) -> Optional[str]:
+            # the transpiler itself: typescript/transpilation.py:Transpiler.transform_joined_str
+            for part in v:  # documented preconditions of the helper it calls
+                guarded(m.string_literal, part, without_enclosing=True, in_backticks=True)
+            return real_joined_str("typescript", v)
+
+        V.append(Variant("transform_joined_str", "template-transpiler", "[template]", "js", "pair",
+                         real_tgen, lambda v: utf16_units(v[0] + X_MARK + v[1])))
         V.append(Variant("bytes_literal", "", "", "jsb", "bytes",
                          lambda v: guarded(m.bytes_literal, v)[0], lambda v: list(v)))
         V.append(Variant(
